@@ -2523,6 +2523,65 @@ theorem sites_match_model :
     AITB.Gen.C01.setterSites = ["viTolThrowsNeg", "viTolAssign", "viHorizon", "viParam", "peTolThrowsNeg", "peTolAssign"] ∧
     AITB.Gen.C01.piSites = ["eval", "greedyOfQfun", "matrix0", "label", "evalP", "warm", "qfunGetsQ", "newMatrix", "diffSmall", "moveMatrix", "goto", "ret"] := by decide
 
+/-! ## why PolicyIteration diverges on the tie chain (finding C01-3) -/
+
+theorem sumTo_mul_right (n : Nat) (c : Rat) (f : Nat → Rat) : sumTo n (fun i => f i * c) = sumTo n f * c := by
+  induction n with
+  | zero => simp [sumTo]
+  | succ n ih => simp only [sumTo, ih]; ring
+
+/-- one sweep of the policy operator on a one-state MDP whose policy row has total weight c: V ↦ ρ + c·γ·V, ρ the weighted reward -/
+theorem bellmanPi_one_state (m : MDP) (hS : m.S = 1) (hT : ∀ a, a < m.A → m.T 0 a 0 = 1) (p : Nat → Nat → Rat) (v : Nat → Rat) :
+    bellmanPi m p v 0 = sumTo m.A (fun a => m.R 0 a * p 0 a) + sumTo m.A (p 0) * (m.γ * v 0) := by
+  unfold bellmanPi qBackup
+  rw [hS]
+  have : ∀ a, a < m.A → (m.R 0 a + sumTo 1 (fun s1 => m.T 0 a s1 * (v s1 * m.γ))) * p 0 a = m.R 0 a * p 0 a + p 0 a * (m.γ * v 0) := by
+    intro a ha
+    simp only [sumTo, hT a ha]
+    ring
+  rw [sumTo_congr this, sumTo_add, sumTo_mul_right]
+
+/-- **weight2_sweeps_never_settle.**  Why PolicyIteration diverges on C01-3: on a one-state MDP, a policy row of total weight c with c·γ ≥ 1
+    (the chain row has c = 2, so γ ≥ ½) and positive weighted reward ρ makes every sweep move the value up by at least ρ — consecutive
+    iterates never come closer than ρ, whatever the horizon; no tolerance below ρ is ever met and the values are unbounded. -/
+theorem weight2_sweeps_never_settle (m : MDP) (hS : m.S = 1) (hT : ∀ a, a < m.A → m.T 0 a 0 = 1) (p : Nat → Nat → Rat)
+    (hc : 1 ≤ sumTo m.A (p 0) * m.γ) (ρ : Rat) (hρ : ρ = sumTo m.A (fun a => m.R 0 a * p 0 a)) (hpos : 0 ≤ ρ) :
+    ∀ h, ρ ≤ evalPolicy m p (h+1) 0 - evalPolicy m p h 0 ∧ (h : Rat) * ρ ≤ evalPolicy m p h 0 := by
+  intro h
+  induction h with
+  | zero =>
+    simp only [evalPolicy, evalFrom]
+    rw [bellmanPi_one_state m hS hT p]
+    simp [← hρ]
+  | succ h ih =>
+    obtain ⟨i1, i2⟩ := ih
+    have e1 : evalPolicy m p (h+1+1) 0 = ρ + sumTo m.A (p 0) * (m.γ * evalPolicy m p (h+1) 0) := by
+      simp only [evalPolicy, evalFrom]; rw [bellmanPi_one_state m hS hT p, ← hρ]
+    have e2 : evalPolicy m p (h+1) 0 = ρ + sumTo m.A (p 0) * (m.γ * evalPolicy m p h 0) := by
+      simp only [evalPolicy, evalFrom]; rw [bellmanPi_one_state m hS hT p, ← hρ]
+    have hd : 0 ≤ evalPolicy m p (h+1) 0 - evalPolicy m p h 0 := le_trans hpos i1
+    constructor
+    · have : evalPolicy m p (h+1+1) 0 - evalPolicy m p (h+1) 0
+          = (sumTo m.A (p 0) * m.γ) * (evalPolicy m p (h+1) 0 - evalPolicy m p h 0) := by rw [e1, e2]; ring
+      rw [this]
+      nlinarith
+    · push_cast
+      linarith
+
+/-- harness case 3 as a model value: one state, three self-loop actions, rewards 1e7 + {0, 0.9e-3, 1.8e-3}, γ = 0.9 -/
+def chainMDP : MDP :=
+  { S := 1, A := 3, T := fun _ _ _ => 1, R3 := fun _ a _ => 10000000 + (a : Rat) * (9 / 10000),
+    R := fun _ a => 10000000 + (a : Rat) * (9 / 10000), γ := 9 / 10 }
+
+/-- the hypotheses of `weight2_sweeps_never_settle` hold for case 3 with the row `[0,1,1]` the as-found scan produces there
+    (weight 2, 2γ = 1.8, ρ = 2e7 + 2.7e-3): every sweep adds at least 2e7 (test on literals) -/
+example : ∀ h, (20000000 : Rat) ≤ evalPolicy chainMDP (fun _ a => if a = 0 then 0 else 1) (h+1) 0
+      - evalPolicy chainMDP (fun _ a => if a = 0 then 0 else 1) h 0 := by
+  intro h
+  have := (weight2_sweeps_never_settle chainMDP rfl (fun _ _ => rfl) (fun _ a => if a = 0 then 0 else 1)
+    (by norm_num [chainMDP, sumTo]) (20000000 + 27 / 10000) (by norm_num [chainMDP, sumTo]) (by norm_num) h).1
+  linarith
+
 /-! ## `bellmanOperator`; the shared LP row buffer -/
 
 theorem bellmanOp_spec (S A : Nat) (q : Mat) :
